@@ -306,3 +306,13 @@ mut("c20_binom_order", TR, '''            moments = jnp.sum(
 mut("c20_open_upper_limit", TR, '''                    jnp.greater_equal(x[None], self.lower_limit[:, None]),
                     jnp.less_equal(x[None], self.upper_limit[:, None]),''', '''                    jnp.greater_equal(x[None], self.lower_limit[:, None]),
                     jnp.less(x[None], self.upper_limit[:, None]),''', ["C20"])
+# ---- C19
+mut("c19_cholesky_transposed", PD, '"abc,dac->dab", L, rand_nums', '"acb,dac->dab", L, rand_nums', ["C19"])
+mut("c19_wrong_component_pairing", PD, '''        L = jnp.linalg.cholesky(self.Sigma)
+        x_samples''', '''        L = jnp.roll(jnp.linalg.cholesky(self.Sigma), 1, axis=0)
+        x_samples''', ["C19"])
+mut("c19_shared_noise_across_components", PD, '''        rand_nums = jax.random.normal(key, (num_samples, self.R, self.D))''', '''        rand_nums = jnp.tile(jax.random.normal(key, (num_samples, 1, self.D)), (1, self.R, 1))''', ["C19"])
+mut("c19_valid_other_sampler", PD, '''        L = jnp.linalg.cholesky(self.Sigma)
+        x_samples''', '''        w_, V_ = jnp.linalg.eigh(self.Sigma)
+        L = V_ * jnp.sqrt(w_)[:, None, :]
+        x_samples''', [])
